@@ -2,7 +2,7 @@
    Only statements closed by [exact]; proofs live in proof/TtlProofs.v.
    Time: [now] is time.Now() in nanoseconds; second-granular clock reads are now / NS. *)
 From Coq Require Import List NArith ZArith Bool String.
-From SW Require Import model.Ttl proof.TtlProofs.
+From SW Require Import model.Ttl proof.TtlProofs proof.TtlFilerProofs.
 Import ListNotations.
 Local Open Scope N_scope.
 
@@ -143,7 +143,29 @@ Example c09_not_removed_early_example :
   compaction_keeps (T0 + 2 * 86400) (read_ttl "3d") (stored_of u) = true /\
   read_visible ((T0 + 5 + 3 * 86400) * NS) (stored_of u) = false /\
   volume_deleted (T0 + 4 * 86400) (volume_of u) = true.
-Proof. vm_compute. repeat split. Qed.
+Proof. exact not_removed_early_example. Qed.
+Print Assumptions c09_not_removed_early_example.
+
+(* Many uploads into one volume (stamp = the largest LastModified written): outside the
+   per-needle trigger (the exact sets of the two iff theorems below, evaluated for every
+   stored needle) no readable needle is dropped by compaction and the volume is not
+   deleted; inside it some needle is removed while readable.  The check uses the same
+   per-needle predicates. *)
+Theorem c09_volume_not_removed_early_partial : forall vttl t0 size limit ioerr us,
+  let v := volume_of_uploads vttl t0 size limit ioerr us in
+  uploads_trigger vttl v us = false ->
+  forall u now, In u us -> read_visible now (stored_of u) = true ->
+    compaction_keeps (now / NS) (read_ttl vttl) (stored_of u) = true /\
+    volume_deleted (now / NS) v = false.
+Proof. exact volume_not_removed_early_partial. Qed.
+Print Assumptions c09_volume_not_removed_early_partial.
+
+Theorem c09_volume_removed_early_in_trigger : forall vttl v us,
+  uploads_trigger vttl v us = true ->
+  exists u now, In u us /\ read_visible now (stored_of u) = true /\
+    (compaction_keeps (now / NS) (read_ttl vttl) (stored_of u) = false \/ volume_deleted (now / NS) v = true).
+Proof. exact volume_removed_early_in_trigger. Qed.
+Print Assumptions c09_volume_removed_early_in_trigger.
 
 (* ---------------- filer TtlSec -> volume TTL ---------------- *)
 
@@ -199,4 +221,114 @@ Example c09_filer_example :
   filer_volume_ttl 7200 = {| t_count := 2; t_unit := 2 |} /\ ttl_covers (filer_volume_ttl 7200) 7200 = true /\
   filer_volume_ttl 31104000 = {| t_count := 12; t_unit := 5 |} /\
   seconds_to_ttl 90 = "1m"%string /\ seconds_to_ttl 15360 = "4h"%string /\ seconds_to_ttl 30 = "0m"%string.
-Proof. vm_compute. repeat split. Qed.
+Proof. exact filer_example. Qed.
+Print Assumptions c09_filer_example.
+
+(* The HTTP write path uploads the chunks first and stamps Crtime := time.Now() afterwards,
+   so the reachable ordering is a < Crtime (the hypothesis crtime * NS < a above holds only
+   when the truncation of Crtime to a whole second swallows the upload latency).  With the
+   chunk appended at most k ns before the (truncated) Crtime, the chunk is readable at every
+   instant at least k before the end of the entry's life ... *)
+Theorem c09_visible_entry_chunk_bound : forall s crtime p a k now,
+  (0 < s < 2^31)%Z ->
+  ttl_covers (filer_volume_ttl s) s = true ->
+  crtime * NS < a + k ->
+  entry_visible (now + k) crtime s = true ->
+  read_visible now (chunk_of s p a) = true.
+Proof. exact visible_entry_chunk_bound. Qed.
+Print Assumptions c09_visible_entry_chunk_bound.
+
+(* ... and within those last k ns the full statement fails even for an exactly
+   representable TtlSec (60 s, chunk appended 5 ms before Crtime). *)
+Theorem c09_visible_entry_chunk_uploaded_first_refuted :
+  exists s crtime p a now, (0 < s < 2^31)%Z /\ ttl_covers (filer_volume_ttl s) s = true /\
+    p * NS <= a /\ a < crtime * NS /\ crtime * NS <= a + 5000000 /\
+    entry_visible now crtime s = true /\ read_visible now (chunk_of s p a) = false.
+Proof. exact visible_entry_chunk_uploaded_first. Qed.
+Print Assumptions c09_visible_entry_chunk_uploaded_first_refuted.
+
+(* ---------------- filer entries over histories ---------------- *)
+
+(* Filer.FindEntry returns the stored entry exactly while now <= Crtime + TtlSec (always
+   when TtlSec <= 0); the base is Crtime, Mtime plays no role. *)
+Theorem c09_filer_find_window : forall now st p e,
+  snd (filer_find now st p) = Some e <->
+  fs_get st p = Some e /\ ((fe_ttl e <= 0)%Z \/ now <= (fe_crtime e + Z.to_N (fe_ttl e)) * NS).
+Proof. exact filer_find_window. Qed.
+Print Assumptions c09_filer_find_window.
+
+Theorem c09_filer_find_mtime_irrelevant : forall now st p e m,
+  fs_get st p = Some e ->
+  let e' := {| fe_crtime := fe_crtime e; fe_mtime := m; fe_ttl := fe_ttl e; fe_chunks := fe_chunks e |} in
+  (snd (filer_find now st p) = None <-> snd (filer_find now (fs_put st p e') p) = None).
+Proof. exact filer_find_mtime_irrelevant. Qed.
+Print Assumptions c09_filer_find_mtime_irrelevant.
+
+(* CreateEntry over / UpdateEntry of a visible entry keeps the old Crtime. *)
+Theorem c09_filer_write_keeps_crtime : forall now st p oe e o,
+  snd (filer_find now st p) = Some oe ->
+  o = FCreate p e false \/ o = FUpdate p e ->
+  fs_get (fst (filer_step now st o)) p = Some (fe_merge oe e) /\
+  fe_crtime (fe_merge oe e) = fe_crtime oe.
+Proof. exact filer_write_keeps_crtime. Qed.
+Print Assumptions c09_filer_write_keeps_crtime.
+
+(* Over every history of operations on the directory (creates, overwrites, appends,
+   updates, lookups, listings on any names; nothing removes or raw-inserts name p; writes
+   to p keep TtlSec = s) executed during the life of the entry at p: after Crtime + s the
+   entry is gone -- modifying an entry never extends its life -- and until then it is
+   visible with its original Crtime. *)
+Theorem c09_filer_life_not_extended : forall l st p e0 s now,
+  fs_get st p = Some e0 -> fe_ttl e0 = s -> (0 < s)%Z ->
+  forallb (fun to => fop_keeps p s (snd to)) l = true ->
+  forallb (fun to => fst to <=? (fe_crtime e0 + Z.to_N s) * NS) l = true ->
+  (fe_crtime e0 + Z.to_N s) * NS < now ->
+  snd (filer_find now (fst (filer_run st l)) p) = None.
+Proof. exact filer_life_not_extended. Qed.
+Print Assumptions c09_filer_life_not_extended.
+
+Theorem c09_filer_life_not_shortened : forall l st p e0 s now,
+  fs_get st p = Some e0 -> fe_ttl e0 = s ->
+  forallb (fun to => fop_keeps p s (snd to)) l = true ->
+  forallb (fun to => fst to <=? (fe_crtime e0 + Z.to_N s) * NS) l = true ->
+  now <= (fe_crtime e0 + Z.to_N s) * NS ->
+  exists e, snd (filer_find now (fst (filer_run st l)) p) = Some e /\ fe_crtime e = fe_crtime e0.
+Proof. exact filer_life_not_shortened. Qed.
+Print Assumptions c09_filer_life_not_shortened.
+
+(* "An entry that is still visible never points at expired data", over all histories
+   from the empty directory at any clocks: if whatever each write leaves in the store
+   points only at chunks that outlive it (decidable [filer_run_safe]; sufficient per chunk:
+   its TTL covers TtlSec and it was appended after the stored Crtime), then every chunk of
+   every entry a lookup or a listing returns can be read at that instant. *)
+Theorem c09_filer_history_safe : forall tab l now p e,
+  filer_run_safe tab [] l = true ->
+  snd (filer_find now (fst (filer_run [] l)) p) = Some e ->
+  forall c, In c (fe_chunks e) -> read_visible now (tab c) = true.
+Proof. exact filer_history_safe. Qed.
+Print Assumptions c09_filer_history_safe.
+
+Theorem c09_filer_history_safe_list : forall tab l now q e,
+  filer_run_safe tab [] l = true ->
+  In (q, e) (fs_expire now (fst (filer_run [] l))) ->
+  forall c, In c (fe_chunks e) -> read_visible now (tab c) = true.
+Proof. exact filer_history_safe_list. Qed.
+Print Assumptions c09_filer_history_safe_list.
+
+Theorem c09_chunk_outlives_sufficient : forall c s n,
+  (0 < s)%Z -> (s <= 60 * Z.of_N (minutes (n_ttl n)))%Z -> c * NS < append_at_ns n ->
+  chunk_outlives c s n = true.
+Proof. exact chunk_outlives_sufficient. Qed.
+Print Assumptions c09_chunk_outlives_sufficient.
+
+(* non-vacuity: created at T0 with TtlSec 60, appended to 57 s later (Mtime moves, Crtime
+   stays); the history is safe, the entry is visible at T0+60 and gone at T0+61.5, when
+   its first chunk is expired *)
+Example c09_filer_history_example :
+  filer_run_safe ex_tab [] ex_hist = true /\
+  snd (filer_find ((T0 + 60) * NS) (fst (filer_run [] ex_hist)) 3) =
+    Some {| fe_crtime := T0; fe_mtime := T0 + 57; fe_ttl := 60; fe_chunks := [0; 1] |} /\
+  snd (filer_find ((T0 + 61) * NS + 500000000) (fst (filer_run [] ex_hist)) 3) = None /\
+  read_visible ((T0 + 61) * NS + 500000000) (ex_tab 0) = false.
+Proof. exact filer_history_example. Qed.
+Print Assumptions c09_filer_history_example.
